@@ -1014,6 +1014,11 @@ func (s *session) beforeSkipUntil(e srvEvent) bool {
 
 // settle records that an event became settled (acknowledged or absorbed) at the current step.
 func (s *session) settle(m *mvb, ev *mev, countsForD bool) {
+	if ev.ev.Seq == m.maxSettle && ev.tuple.Seq == m.maxTuple.Seq && m.maxSettle > 0 {
+		// the same event delivered again after a re-request (under another snapshot announcement), or acknowledged a second
+		// time: the tracked position is that event's position either way; the library keeps the one settled last
+		m.maxTuple = ev.tuple
+	}
 	if ev.settledAt >= 0 {
 		return
 	}
